@@ -8,6 +8,7 @@ import Driver.Dr
 import Driver.Sm
 import Driver.Tm
 import Driver.Lm
+import Driver.Lk
 /-! `driver <suite>`: reads a transcript on stdin, prints the model's `obs` line for every `op` line. -/
 
 partial def loopSrv (h : IO.FS.Stream) (out : IO.FS.Stream) (st : Driver.Srv.St) : IO Unit := do
@@ -73,6 +74,15 @@ partial def loopLm (h : IO.FS.Stream) (out : IO.FS.Stream) (st : Narwhal.Limits.
   | none => pure ()
   loopLm h out st'
 
+partial def loopLk (h : IO.FS.Stream) (out : IO.FS.Stream) (st : Driver.Lk.St) : IO Unit := do
+  let line ← h.getLine
+  if line.isEmpty then return ()
+  let (st', o) := Driver.Lk.handle st line
+  match o with
+  | some l => out.putStrLn l
+  | none => pure ()
+  loopLk h out st'
+
 partial def loopStateless (h : IO.FS.Stream) (out : IO.FS.Stream) (f : String → Option String) : IO Unit := do
   let line ← h.getLine
   if line.isEmpty then return ()
@@ -90,6 +100,7 @@ def main (args : List String) : IO UInt32 := do
   | ["client"] => loopCl stdin stdout ({}, []); return 0
   | ["pool"] => loopPl stdin stdout {}; return 0
   | ["direct"] => loopDr stdin stdout {}; return 0
+  | ["links"] => loopLk stdin stdout {}; return 0
   | ["limits"] => loopLm stdin stdout { maxConn := 0, inflight := 0, conns := [] }; return 0
   | ["timers"] => loopTm stdin stdout {}; return 0
   | ["s2m"] => loopStateless stdin stdout Driver.Sm.handle; return 0
